@@ -226,6 +226,15 @@ func drive(args []string) {
 				args[6] = fmt.Sprint(from)
 				args[10] = left.String()
 				cmd := exec.Command(b.bin(j.build), args...)
+				// a knob like any other: one worker in eight runs on a single P, one
+				// on two (a library may choose a code path by runtime.GOMAXPROCS; the
+				// executions themselves do not depend on it, see selftest determinism)
+				switch ji % 8 {
+				case 5:
+					cmd.Env = append(os.Environ(), "GOMAXPROCS=1")
+				case 6:
+					cmd.Env = append(os.Environ(), "GOMAXPROCS=2")
+				}
 				var stdout, stderr bytes.Buffer
 				cmd.Stdout, cmd.Stderr = &stdout, &stderr
 				done := make(chan error, 1)
@@ -386,7 +395,7 @@ func drive(args []string) {
 			// the run alone does not fail in a fresh process: state the
 			// pristine-state comparison cannot see may have been carried over from
 			// earlier runs of the same worker. Re-execute the worker's segment.
-			ss := &Session{Prop: *prop, Seed: *seed, From: o.SegFrom, Stride: uint64(total), Until: o.LastIdx, Build: build, Tier: *tier}
+			ss := &Session{Prop: *prop, Seed: *seed, From: o.SegFrom, Stride: uint64(total), Until: o.LastIdx, Build: build, Tier: *tier, Procs: o.Procs}
 			sv, serr := runSession(b.bin(build), b.sites(build), ss)
 			if serr == nil && sv != nil && sv.Sig == o.Violation.Sig {
 				rf := ReplayFile{Session: ss, Violation: sv, Note: fmt.Sprintf("the violating run (index %d) fails only after the runs that precede it in the same process (indices %d, %d, ... step %d); replay with: ./check replay %s", ss.Until, ss.From, ss.From+ss.Stride, ss.Stride, final)}
